@@ -1,6 +1,8 @@
 import EmmyVerif.Lemmas.TyParse
 import EmmyVerif.Model.TyText
 import EmmyVerif.Lemmas.TyConv
+import EmmyVerif.Lemmas.TyConv2
+import EmmyVerif.Lemmas.TyConv4
 /-!
 # C17 — Rendered types read back as the same type
 
@@ -14,9 +16,12 @@ of union members and the kind (inferred / doc) of literal constants.
 Proved: the parser reads back exactly the syntax tree the renderer laid out, for every type that fits
 (`C17_parse_render_partial`), hence no union / optional / array is ever regrouped and no literal
 token changes; for atoms and arrays of atoms the full statement `parseTy (render t) = some t` holds
-(`C17_parse_render_arrays`, `C17_reread_atom`). Missing: the proof that the semantic conversion of the
-tree (`ofType ∘ renderCst`) is `norm` for unions, optionals, `table<…>` and records — compared on
-generated types with the implementation on every run instead.
+(`C17_parse_render_arrays`, `C17_reread_atom`); for `table<…>`, records and `T?` over these too
+(`C17_parse_render_compound`); for unions of distinct readable members `parseTy (render t) = some
+(readNorm t)` where `readNorm` is the reader's `|`-fold followed by `?` (`C17_parse_render_union`), and
+`readNorm t` has exactly the members of `t` (`C17_readNorm_members`). Missing: unions nested directly
+inside unions' members beyond `T?`, function and tuple types, and member lists with duplicates (never
+built by `LuaType::from_vec`) — compared on generated types with the implementation on every run instead.
 -/
 namespace TyM
 open Ty
@@ -65,6 +70,71 @@ theorem C17_parse_render_arrays (e : Env) (t : Ty) (ts : List Tok) (hc : cv t = 
     simp only [reread, hr, Option.map_some, Option.some.injEq]
     exact conv_array_free e t hc _ _ _ c hr
 
+/-- **parse ∘ render = id** for the union-free core extended with `table<…>` (any arity), records
+and optionals: every type built from basic kinds (except `unknown`), doc literals, references that are
+not aliases and not named like a basic kind, arrays, `table<…>`, records `{k: T, …}` and `T?` for a
+literal, reference or compound `T` (`cv2`), whenever the renderer does not truncate it. -/
+theorem C17_parse_render_compound (e : Env) (hna : NoAlias e) (t : Ty) (ts : List Tok)
+    (hc : cv2 t = true) (h : render t = some ts) : parseTy e ts = some t := by
+  rw [C17_parse_render_partial e t ts h]
+  unfold render at h
+  cases hr : renderCst t with
+  | none => simp [hr] at h
+  | some c =>
+    simp only [reread, hr, Option.map_some, Option.some.injEq]
+    exact conv2 e hna t hc _ _ _ c hr
+
+/-- the reader's normal form of a union with members `ms`: the `|`-fold (`binUnion`, i.e.
+`LuaType::from_vec` of the two sides) over the members other than `nil`, in the order rendered, then the
+`?` reader (`mkNullable`) when `nil` was a member -/
+def readNorm (e : Env) (ms : TyL) : Ty :=
+  readFold e (ms.toList.any fun t => decide (t = tNil)) (nonNil ms)
+
+/-- **parse ∘ render = readNorm** for unions: any number of distinct members, each readable (`cv2`, so
+atoms, arrays, `table<…>`, records, and these optional inside containers) and not itself a union, with
+or without `nil`, whenever the renderer does not truncate. -/
+theorem C17_parse_render_union (e : Env) (hna : NoAlias e) (ms : TyL) (ts : List Tok)
+    (hc : cv2All (nonNil ms) = true) (hnd : (nonNil ms).Nodup) (h : render (.union ms) = some ts) :
+    parseTy e ts = some (readNorm e ms) := by
+  rw [C17_parse_render_partial e _ ts h]
+  unfold render at h
+  cases hr : renderCst (.union ms) with
+  | none => simp [hr] at h
+  | some c =>
+    simp only [reread, hr, Option.map_some, Option.some.injEq, readNorm]
+    exact conv_union e hna ms hc hnd _ _ _ c hr
+
+/-- **readNorm only reorders**: the reader's normal form has exactly the members of the union it was
+rendered from (`any?` and `never?` excluded: `any | nil` is `any` — ledger `union-of-any-and-nil`). -/
+theorem C17_readNorm_members (e : Env) (hna : NoAlias e) (ms : TyL) (hc : cv2All (nonNil ms) = true)
+    (hnd : (nonNil ms).Nodup) (hne : ms ≠ .nil) (hany : nonNil ms ≠ [tAny]) (hnever : nonNil ms ≠ [tNever]) :
+    ∀ m, m ∈ Ty.members (readNorm e ms) ↔ m ∈ ms.toList := by
+  intro m
+  have hnil : tNil ∉ nonNil ms := fun h => ((mem_nonNil ms tNil).mp h).2 rfl
+  have hhas : (ms.toList.any fun t => decide (t = tNil)) = true ↔ tNil ∈ ms.toList := by
+    simp only [List.any_eq_true, decide_eq_true_eq]
+    constructor
+    · rintro ⟨x, hx, rfl⟩; exact hx
+    · intro hx; exact ⟨tNil, hx, rfl⟩
+  have hempty : nonNil ms = [] → (ms.toList.any fun t => decide (t = tNil)) = true := by
+    intro h0
+    cases ms with
+    | nil => exact absurd rfl hne
+    | cons t ts =>
+      by_cases ht : t = tNil
+      · subst ht; simp [TyL.toList]
+      · have : t ∈ nonNil (.cons t ts) := (mem_nonNil _ t).mpr ⟨by simp [TyL.toList], ht⟩
+        rw [h0] at this; simp at this
+  rw [readNorm, readFold_members e hna _ (nonNil ms) hc hnd hnil hempty hany hnever m, mem_nonNil, hhas]
+  constructor
+  · rintro (⟨h1, _⟩ | ⟨h1, rfl⟩)
+    · exact h1
+    · exact h1
+  · intro h1
+    by_cases hm : m = tNil
+    · subst hm; exact .inr ⟨h1, rfl⟩
+    · exact .inl ⟨h1, hm⟩
+
 /-- the layout before the fix `aced4e0` (`boolean?[]`) is not even a complete type for the parser:
 the `[]` is left over -/
 theorem C17_unparenthesised_optional_array_witness :
@@ -79,7 +149,13 @@ example : reread { decls := [] } (.array (Ty.mk [tNil, .prim .boolean])) = some 
   decide +kernel
 example : (renderText (Ty.mk [.ref "A".toList, .array (.ref "B".toList), tNil])).map String.ofList
     = some "(A|B[])?" := by decide +kernel
+example : cv2 (.tgen (TyL.ofList [.prim .string, Ty.mk [.array (.ref "A".toList), tNil],
+    .object (.cons "k".toList (.lit (.docInt (-1))) .nil)])) = true := by decide
 example : (renderText (.tgen (TyL.ofList [.prim .string, Ty.mk [.ref "A".toList, tNil]]))).map String.ofList
     = some "table<string,A?>" := by decide +kernel
+example : readNorm { decls := [] } (TyL.ofList [.ref "A".toList, tNil, .array (.ref "B".toList), .prim .string])
+    = Ty.mk [.ref "A".toList, .array (.ref "B".toList), .prim .string, tNil] := by decide +kernel
+example : reread { decls := [] } (Ty.mk [.ref "A".toList, tNil, .array (.ref "B".toList), .prim .string])
+    = some (Ty.mk [.ref "A".toList, .array (.ref "B".toList), .prim .string, tNil]) := by decide +kernel
 
 end TyM
